@@ -447,6 +447,10 @@ func TLen(a *Term) *Term {
 		}
 		return TAdd(sum...)
 	}
+	// a byte rendered as a one-character string
+	if a.kind == KApp && a.op == "str.from_code" && a.args[0].kind == KApp && a.args[0].op == "bv2nat" && a.args[0].args[0].sort == SBV8 {
+		return TInt(1)
+	}
 	return mkApp("str.len", SInt, false, a)
 }
 
